@@ -268,15 +268,17 @@ def run_scalar(case, ctx):
         flags = (node.is_scalar(), node.is_sequence(), node.is_mapping())
         if flags != (True, False, False):
             ctx.finding('classify', 'scalar_flags', '%r classified %r' % (text, flags))
-        if kind not in ('str', 'int', 'float', 'bool', 'null'):
+        if kind not in ('str', 'int', 'float', 'bool', 'null', 'timestamp'):
             return
         try:
             want = _load(text)
         except Exception as e:
             ctx.count('load_raises_' + type(e).__name__)
             return
-        typed = [t for t in (str, int, float, bool, None) if node.is_scalar(t)]
-        wt = None if want is None else type(want)
+        import datetime
+        typed = [t for t in (str, int, float, bool, None, datetime.date) if node.is_scalar(t)]
+        wt = None if want is None else (
+            datetime.date if isinstance(want, datetime.date) else type(want))
         if typed != [wt]:
             ctx.finding('scalar', 'is_scalar_type',
                         'is_scalar(t) true for %r on %r which loads as %r' % (typed, text, want))
@@ -437,7 +439,9 @@ INT_SPELLINGS = ['0', '7', '-7', '+7', '007', '017', '0o17', '0x1F', '0x1f', '-0
                  '00', '123456789012345678901234567890', '~', 'null', 'Null', 'NULL',
                  '', '""', "''", '"1"', "'true'", '"~"', '!!str 1', '!!int "7"',
                  '!!float 1', '!!null ""', '!!bool "true"', '!!bool yes', '!!bool on', '!!bool No', '!!bool OFF', '!!bool y', 'yes', 'No', 'on',
-                 '2001-01-01', '1.5', '.5', '5.', '1e5', '-.inf', '.NaN', '+.INF',
+                 '2001-01-01', '2001-01-01 10:00:00', '2001-01-01T10:00:00Z',
+                 '2001-1-2t3:4:5.25 +01:30', '2001-13-45', '2001-02-30', '!!timestamp 2001-01-01',
+                 '!!timestamp x', '"2001-01-01"', '1.5', '.5', '5.', '1e5', '-.inf', '.NaN', '+.INF',
                  '1.0e+22', '1E-3', 'true', 'True', 'TRUE', 'false', 'False', 'FALSE',
                  'a', 'a b', '"a\\nb"', '|\n  lit\n', '>\n  folded\n', '[1]', '{a: 1}']
 
